@@ -56,6 +56,15 @@ def gen(rng, tier):
             else:
                 ops.append((rng.choice("GLRX"), rng.choice(NAMES + ["aa", "", "X-y"])))
         cases.append("ops " + " ".join(op_str(o) for o in ops))
+    # 2b. case-insensitive matching is equality of ASCII-lower-cased bytes and nothing else: every
+    #     pair of one-character names over all 128 ASCII values (exhaustive), plus multi-character
+    #     names differing by 0x20 in a non-letter position ('^'/'~', '_'/DEL, '|'/'\\', '['/'{', '@'/'`')
+    for a in range(128):
+        for b in range(128):
+            if a == b or (a ^ b) == 0x20 or tier != "quick" or (a * 131 + b) % 7 == 0:
+                cases.append("ops A x%02x x31 G x%02x X x%02x" % (a, b, b))
+    for x, y in [("x-sig^", "x-sig~"), ("a_b", "a\x7fb"), ("p|q", "p\\q"), ("k[", "k{"), ("k]", "k}"), ("@t", "`t"), ("Ab-1", "aB-1"), ("z!", "z\x01")]:
+        cases.append("ops A %s x31 A %s x32 L %s G %s X %s L %s" % (tok(x), tok(y), tok(x), tok(y), tok(x), tok(y)))
     # 3. AsciiString constructors
     texts = [[], [97], [0], [127], [128], [255], [256], [0x20AC], [0x10FFFF], [97, 128], [128, 97], [97, 98, 99],
              [97, 0xE9, 98], [0x7F, 0x80], [65, 0xD7FF], [0xE000]]
